@@ -336,6 +336,10 @@ def kinds : List KindSpec := [
   templateKind "Template" true, templateKind "Template#secondary" false,                                               -- impl:1886-1899, src/impl.cxx:688-696
   K "Parameter" [L "init"] [("initializer", opt 2 0), ("default_value", opt 2 0)]                                      -- impl:744-759
     (uniqueDeclConst ++ ["home_region", "lexical_region", "level", "position"]),
+  -- the same node entered through `homogeneous_region::scope.push_back` (what add_member does first): `where`, a util::ref, is unset
+  K "Parameter#detached" [L "init"]
+    [("initializer", opt 2 0), ("default_value", opt 2 0), ("home_region", .fails), ("lexical_region", .fails), ("level", .fails)]
+    (uniqueDeclConst ++ ["position"]),
   K "Enumerator" [L "init"] [("initializer", opt 2 0)] (uniqueDeclConst ++ ["home_region", "lexical_region", "position"]),   -- impl:1532-1546
   K "Base_type" [] [("initializer", .fails)] (uniqueDeclConst ++ ["home_region", "lexical_region", "position"]),       -- src/impl.cxx:636-639
   K "EH_parameter" [] [] (uniqueDeclConst ++ ["home_region", "lexical_region", "initializer"]),
